@@ -80,7 +80,7 @@ def sig_key(c):
     return f"{c['kind']}_{WIDX[c['w']]}"
 
 
-def build_project(cases, subscriptions=False):
+def build_project(cases, subscriptions=False, only_ops=None):
     """One schema + one queries file covering every (kind, wrapper) signature in the three positions (+ the two
     subscription positions when the client is asynchronous)."""
     sigs = sorted({(c["kind"], c["w"]) for c in cases})
@@ -128,11 +128,13 @@ def build_project(cases, subscriptions=False):
     sdl.append("type Query {\n" + "\n".join(qfields) + "\n}")
     if sfields:
         sdl.append("type Subscription {\n" + "\n".join(sfields) + "\n}")
+    if only_ops:          # keep only the operations whose name starts with one of the prefixes (pruned-package variants)
+        ops = [o for o in ops if any(o.split("(")[0].split("{")[0].split()[1].startswith(pre) for pre in only_ops)]
     return "\n".join(sdl) + "\n", "\n\n".join(ops) + "\n"
 
 
-def generate_project(work, cases, options, tag):
-    sdl, qs = build_project(cases, subscriptions=bool(options.get("async_client")))
+def generate_project(work, cases, options, tag, only_ops=None):
+    sdl, qs = build_project(cases, subscriptions=bool(options.get("async_client")) and not only_ops, only_ops=only_ops)
     job = write_job(work.dir / f"job_{tag}", schema=sdl, queries=qs, package="gclient",
                     options=dict(options, files_to_include=["scalars_mod.py"]), scalars=SCALARS_CFG,
                     files={"scalars_mod.py": SCALARS_MOD})
